@@ -27,6 +27,10 @@ def run(ctx):
     ctx.floor('R10.1', 'arithmetic sinks analysed', ctx.extra['numeric']['R10.1']['sinks'], 4)
     ctx.rule('R10.6', 'the axiom weight_times_variance >= 0 is justified structurally: convex mean step w/W and increment w*(x-old)*(x-new)')
     N.convex_update(ctx, 'R10.6', {'statistics', 'utils'}, 'WeightedTally', '_weighted_mean', '_weight_times_variance', 'value', N.STAT_AXIOMS)
+    ctx.rule('R10.7', 'count, non-zero count, total weight, weighted sum, minimum and maximum are maintained as documented on every accepting path; zero-weight observations touch only count/min/max')
+    N.accumulators(ctx, 'R10.7', {'statistics', 'utils'}, 'WeightedTally',
+                   [('count', '_n'), ('count', '_n_nonzero', 'pos:weight'), ('sum', '_sum_of_weights', 'weight', 'pos:weight'),
+                    ('prod_sum', '_weighted_sum', 'weight', 'value', 'pos:weight'), ('min', '_min', 'value'), ('max', '_max', 'value')], N.STAT_AXIOMS)
     classes = ['WeightedTally', 'TimestampWeightedTally', 'EventBasedWeightedTally', 'EventBasedTimestampWeightedTally', 'SimWeightedTally', 'SimPersistent']
     T.rejected_input(ctx, 'R10.2', classes)
     T.coercion_before_write(ctx, 'R10.2b', ['WeightedTally', 'TimestampWeightedTally'])
